@@ -19,7 +19,7 @@ def run(v):
     for d in big:
         d["alpha"]["extras"] = ["unk", "dd", "help"]
     cov = run_cmdline_property(v, families(v.tier), None, replay_cfg="MC_GroupLine_replay.cfg", module="MC_GroupLine",
-                               signature=cmdline_sig.signature, trace_module="GroupLineTrace",
+                               signature=cmdline_sig.signature, ledger_every=(6 if v.tier == "quick" else 1), trace_module="GroupLineTrace",
                                driver={"defs": big, "n": 15000 if v.tier == "quick" else 300000, "gen": gen})
     cov["rule"] = ("group shapes {flag + 2..3 positionals, flag + two named arguments + optional switch} under one/opt/many among "
                    "0..2 other options and a trailing repeated positional; all lines up to maxlen: blocks at every position, "
